@@ -397,6 +397,8 @@ def main(argv=None):
     try:
         pool.run(jobs(), on_result)
         t_search = time.time() - t0
+        if args.survey and args.digests:
+            write_json(args.digests, all_digests)
         if args.survey:
             for (p_, sig), idxs in sorted(survey.items(), key=lambda kv: (str(kv[0][0]), -len(kv[1]))):
                 log('SURVEY %s %-60s %5d runs  e.g. index %s' % (p_, sig, len(idxs), idxs[:6]))
